@@ -77,7 +77,7 @@ export async function run() {
       stats.parsers++;
       const skel = skeleton(spec0, refProg);
       const typeText = render(spec0);
-      const detail = { engine: "E-src", program: text, parser: name, type: typeText };
+      const detail = { engine: "E-src", program: text, parser: name, type: typeText, case_id: skel };
       const an = analyse(refProg, spec);
       const SchemaPrintingContext = client.codegen.SchemaPrintingContext;
       const mkCtx = (s) => new SchemaPrintingContext({ refPathTemplate: s.refPathTemplate, definitionContainerKey: s.definitionContainerKey });
